@@ -6,7 +6,7 @@ from . import cluster_gen
 class C15(Prop):
     id = "C15"
     lean_module = "RNacos.Props.C15"
-    level = "exploration"
+    level = "proof"
     design_ref = "DESIGN.md §7 C15"
     models = [ModelRun("cluster", cluster_gen.gen_registry, lambda c: any(o.startswith("listall") for o in c.ops),
                        spec_needs_impl=True, jobs=2, shrinkable=False,
